@@ -63,6 +63,7 @@ class Unit:
         self.assumptions = []      # prose, printed in the evidence
         self.kani = []             # names of kani harness groups that twin this unit
         self.expected_trusted = None
+        self.tail_subs = []        # R-path substitutions applied to every function body after the function's own subs (any count)
 
     # ------------------------------------------------------------------------------------------
     def assume(self, text):
@@ -143,6 +144,7 @@ class Unit:
         for rg in regions or ():
             body = apply_region(body, rg, fired)
         body = self._apply_subs(body, subs, fired)
+        body = self._apply_subs(body, self.tail_subs, fired)
         for ch in chains or ():
             body = apply_chain(body, ch, fired)
         for cs in closures or ():
@@ -267,6 +269,7 @@ class Unit:
         for rg in regions or ():
             body = apply_region(body, rg, fired)
         body = self._apply_subs(body, subs, fired)
+        body = self._apply_subs(body, self.tail_subs, fired)
         for ch in chains or ():
             body = apply_chain(body, ch, fired)
         for cs in closures or ():
